@@ -3,6 +3,7 @@ package main
 import (
 	"fmt"
 	"go/token"
+	"go/types"
 	"sort"
 	"strings"
 
@@ -492,6 +493,7 @@ func runC20(c *Check) {
 			c.Bad("C20-R4", "GetNextBatch ⟂ append-in-blob-order", fn, p.InstrPos(an.In), "the appended transaction is not the blob at the ascending range index: "+trunc(e.String(), 120), nil)
 		}
 	}
+	ruleScanOnlyOverEmptyQueue(c, p, g, fnb, isRetrieve)
 	c.Doc("C20-R5", "EO: every mutation of the carry-over list is followed by Save before the method returns.")
 	ruleCarryOverDurable(c, p)
 	c.Doc("C20-R6", "EO: no error return of GetNextBatch is reachable after the durable pop of the carry-over queue.")
@@ -585,4 +587,111 @@ func rulePoppedNotDiscarded(c *Check, p *Prog, g *Graph, fnb *ssa.Function) {
 	if n == 0 {
 		c.OK(rule, "GetNextBatch ⟂ no-error-return-after-pop", fnName(fnb), p.InstrPos(pops[0].In), "no error return is reachable after the carry-over queue was popped", true)
 	}
+}
+
+// ruleScanOnlyOverEmptyQueue (C20-R10): what is still in the carry-over queue was found on the DA
+// layer before anything a further scan can find. A transaction that did not fit "comes first in
+// the next batch", so while the queue holds something nothing may be scanned into the batch behind
+// it: every retrieval is reached, after the last change of the queue (the pop, a remainder push),
+// only through a test showing the queue empty.
+func ruleScanOnlyOverEmptyQueue(c *Check, p *Prog, g *Graph, fnb *ssa.Function, isRetrieve NodePred) {
+	rule := "C20-R10"
+	c.Doc(rule, "EO+GA: after the last change of the carry-over queue (pop, remainder push) the DA layer is scanned only through a test showing the queue empty: a smaller transaction of a later height never overtakes a carried-over transaction that did not fit.")
+	fn := fnName(fnb)
+	isQueue := func(t types.Type) bool { return strings.HasSuffix(t.String(), "based.PersistentPendingTxs") }
+	// what a queue method without arguments reports: "len", "empty", "nonempty" or ""
+	reports := func(f *ssa.Function) string {
+		if f == nil || f.Blocks == nil || f.Signature.Recv() == nil || len(f.Params) != 1 || f.Signature.Results().Len() != 1 {
+			return ""
+		}
+		kind := ""
+		for _, b := range f.Blocks {
+			for _, in := range b.Instrs {
+				switch x := in.(type) {
+				case *ssa.Store, *ssa.MapUpdate, *ssa.Send, *ssa.Go:
+					return ""
+				case *ssa.Return:
+					t := TermOf(x.Results[0], &Ctx{Fn: f}).unconv()
+					k := ""
+					isLen := func(u *Term) bool {
+						u = u.unconv()
+						return u.IsCall("len") && len(u.Args) == 1 && strings.HasPrefix(u.Args[0].String(), f.Params[0].Name()+".")
+					}
+					switch {
+					case isLen(t):
+						k = "len"
+					case t.Op == "bin" && len(t.Args) == 2 && isLen(t.Args[0]) && t.Args[1].unconv().Op == "const":
+						z := t.Args[1].unconv().Name
+						switch {
+						case (t.Name == "==" && z == "0") || (t.Name == "<" && z == "1") || (t.Name == "<=" && z == "0"):
+							k = "empty"
+						case (t.Name == "!=" && z == "0") || (t.Name == ">" && z == "0") || (t.Name == ">=" && z == "1"):
+							k = "nonempty"
+						}
+					}
+					if k == "" || (kind != "" && kind != k) {
+						return ""
+					}
+					kind = k
+				}
+			}
+		}
+		return kind
+	}
+	lenKind := func(t *Term) string {
+		t = t.unconv()
+		if t.IsCall("len") && len(t.Args) == 1 {
+			if ld, ok := t.Args[0].V.(*ssa.UnOp); ok {
+				if fa, ok := ld.X.(*ssa.FieldAddr); ok && isQueue(derefType(fa.X.Type())) {
+					return "len"
+				}
+			}
+		}
+		if cv, ok := t.V.(*ssa.Call); ok {
+			if cal := cv.Common().StaticCallee(); cal != nil && cal.Signature.Recv() != nil && isQueue(derefType(cal.Signature.Recv().Type())) {
+				return reports(cal)
+			}
+		}
+		return ""
+	}
+	empties := g.Select(EdgeWhere(func(t *Term, pol bool, n *Node) bool {
+		t, pol = normFact(t, pol)
+		switch k := lenKind(t); k {
+		case "empty":
+			return pol
+		case "nonempty":
+			return !pol
+		}
+		if t.Op != "bin" || len(t.Args) != 2 {
+			return false
+		}
+		a, b, op := t.Args[0], t.Args[1], t.Name
+		if lenKind(b) == "len" {
+			a, b = b, a
+			op = map[string]string{"<": ">", "<=": ">=", ">": "<", ">=": "<=", "==": "==", "!=": "!="}[op]
+		}
+		if lenKind(a) != "len" || b.unconv().Op != "const" {
+			return false
+		}
+		z := b.unconv().Name
+		isEmpty := (op == "==" && z == "0") || (op == "<" && z == "1") || (op == "<=" && z == "0")
+		isNonEmpty := (op == "!=" && z == "0") || (op == ">" && z == "0") || (op == ">=" && z == "1")
+		return (isEmpty && pol) || (isNonEmpty && !pol)
+	}))
+	isMut := func(n *Node) bool {
+		cc := CallCommonOf(n)
+		if cc == nil || cc.StaticCallee() == nil || cc.StaticCallee().Signature.Recv() == nil || !isQueue(derefType(cc.StaticCallee().Signature.Recv().Type())) {
+			return false
+		}
+		return reports(cc.StaticCallee()) == "" // every queue method that is not a pure report
+	}
+	muts := g.Select(isMut)
+	if len(muts) < 2 || len(g.Select(isRetrieve)) == 0 {
+		c.Unk(rule, "GetNextBatch ⟂ anchors", fn, "", fmt.Sprintf("anchor lost: %d calls changing the carry-over queue (pop, remainder push), %d retrievals", len(muts), len(g.Select(isRetrieve))))
+		return
+	}
+	c.Decide(rule, "GetNextBatch ⟂ scan-only-over-empty-queue", fn, posOf(g, isRetrieve), "the DA layer is scanned only after a test showing the carry-over queue empty",
+		"the DA layer is scanned although the carry-over queue may still hold a transaction that did not fit: a smaller transaction found at a later height is released ahead of it (DA order broken)",
+		g, g.PrecedeSince(isMut, nodeSet(empties), isRetrieve))
+	c.MinInstances(rule, 1)
 }
